@@ -20,7 +20,8 @@ def run(tier):
         scen.append({"kind": kind, "strategy": "drop", "sinks": "fast", "directed": "syncstop"})
     for kind in ("direct", "count", "analytic", "cep"):      # a synchronous sink blocked beyond the grace period: Stop returns all the same
         scen.append({"kind": kind, "strategy": "drop", "sinks": "fast", "directed": "stopgrace"})
-    for kind in ("boom_direct", "boom_where", "boom_count", "boom_global", "boom_analytic"):      # a row that makes a user function panic does not stop later rows
+    scen.append({"kind": "direct", "strategy": "expand", "sinks": "fast", "directed": "slowdrain"})
+    for kind in ("boom_direct", "boom_where", "boom_count", "boom_global", "boom_analytic", "boom_cep"):      # a row that makes a user function panic does not stop later rows
         scen.append({"kind": kind, "strategy": "drop", "sinks": "fast", "directed": "rowpanic"})
     for kind in KINDS:
         for strat in ("drop", "block", "expand"):
